@@ -184,7 +184,14 @@ def cases(draw):
             if tail is None:
                 continue
             tp, ts, ident = pre.pick(targets[rn])
-            s["k"] = [{"n": REF, "c": ident}] + [full_spec(a) for a in tail]
+            ref = {"n": REF, "c": ident}
+            if pre.chance(3):
+                # the one attribute a references node may carry; whether it agrees with the target's is no part of the
+                # statement: a references value that names exactly one id is expanded
+                ref["a"] = {"system": pre.pick(["edi", "https://orcid.org", "knb"])}
+                if pre.bool():
+                    ts.setdefault("a", {})["system"] = pre.pick(["edi", "https://orcid.org"])
+            s["k"] = [ref] + [full_spec(a) for a in tail]
             s.pop("c", None)
             refs.append((p, s, ident))
             rpaths.append(p)
